@@ -345,6 +345,10 @@ func buildIntrinsics() map[string]intrinsicFn {
 		fr.r.daemons = append(fr.r.daemons, a[0].(string))
 		return nil
 	}
+	m["verif:verifBlockForever"] = func(fr *frame, a []value) value {
+		fr.r.blockForever("verifBlockForever")
+		return nil
+	}
 	m["verif:verifTicks"] = func(fr *frame, a []value) value { return int64(fr.r.ticks) }
 	m["verif:verifReplayFailures"] = func(fr *frame, a []value) value { return []value(nil) }
 
